@@ -88,8 +88,14 @@ def key_obj(key):
 @st.composite
 def case_strategy(draw):
     op = draw(st.sampled_from(["cnum", "cseq", "cmat", "cblocks", "get1", "get2", "set1", "set2", "bin", "bin", "bin", "rbin",
-                               "pow", "mod", "imod", "unary", "resize", "builtin", "elem", "inplace", "inplace"]))
+                               "pow", "mod", "imod", "unary", "resize", "builtin", "elem", "elemnum", "inplace", "inplace"]))
     c = dict(op=op)
+    if op == "elemnum":
+        # the elementwise functions with scalar arguments only ("the arguments must be matrices of the same size, or scalars")
+        pool = st.one_of(st.integers(-6, 6), st.integers(-6, 6).map(lambda k: k / 2.0),
+                         st.sampled_from([2 ** 31, 2 ** 40, -2 ** 40 - 1, 2 ** 31 - 1, 3 * 2 ** 32]))
+        c.update(f=draw(st.sampled_from(["mul", "div", "max", "min"])), a=draw(pool), b=draw(pool))
+        return c
     if op == "cnum":
         c.update(x=draw(number_st()), size=draw(st.one_of(st.none(), st.tuples(st.integers(0, 3), st.integers(0, 3)))),
                  tc=draw(st.sampled_from([None, None, "i", "d", "z"])))
@@ -564,6 +570,33 @@ def oracle(case, stats=None):
         if list(A) != snap:
             raise Violation("elementwise %s modified its argument" % f)
         labels.append("f:" + f)
+    elif op == "elemnum":
+        f, a, b = case["f"], case["a"], case["b"]
+        fn = {"mul": cvxopt.mul, "div": cvxopt.div, "max": cvxopt.max, "min": cvxopt.min}[f]
+        both_int = isinstance(a, int) and isinstance(b, int)
+        try:
+            got = fn(a, b)
+        except ArithmeticError:
+            got = "refused"
+        if f == "div" and b == 0:
+            want = "refused"
+        elif f == "div":
+            want = a / b
+        elif f == "mul":
+            want = a * b
+        else:
+            want = (max if f == "max" else min)(a, b)
+            want = want if both_int else float(want)
+        if isinstance(want, int) and abs(want) >= 2 ** 63:
+            out = "unspecified"        # beyond the range of the integer type of the library
+        else:
+            if got == "refused" or want == "refused":
+                if got != want:
+                    raise Violation("cvxopt.%s(%r, %r): %r, expected %r" % (f, a, b, got, want))
+            elif not same_number(got, want, approx=(f == "div")):
+                raise Violation("cvxopt.%s(%r, %r) returned %r, the scalar operation gives %r" % (f, a, b, got, want))
+            out = "ok"
+        labels.append("f:" + f + ":numbers")
     else:
         raise AssertionError(op)
     A_ = case.get("A")
